@@ -282,17 +282,18 @@ Definition git_int (v : option bytes) : option Z :=
 (* ---- correspondence entry points (C-git) ---- *)
 Definition o_entry (e : gentry) : out :=
   let '(b, k, v) := e in OList [OBytes (full_name b k); OOpt OBytes v].
-Definition c48_spec_parse (hex : String.string) : out :=
-  match git_config_parse (unhex hex) with
+Definition unhexl (l : list String.string) : bytes := flat_map unhex l.
+Definition c48_spec_parse (hex : list String.string) : out :=
+  match git_config_parse (unhexl hex) with
   | inr es => OOk (map o_entry es)
   | inl GErrSyntax => OErr "syntax"%string
   | inl GErrNul => OErr "nul"%string
   end.
-Definition c48_spec_bool (hex : String.string) : out :=
-  OOpt OBool (git_bool (Some (unhex hex))).
-Definition c48_spec_int (hex : String.string) : out :=
-  OOpt ONum (git_int (Some (unhex hex))).
+Definition c48_spec_bool (hex : list String.string) : out :=
+  OOpt OBool (git_bool (Some (unhexl hex))).
+Definition c48_spec_int (hex : list String.string) : out :=
+  OOpt ONum (git_int (Some (unhexl hex))).
 (* `git config --type=int` itself parses with git_config_int64 (max = 2^63-1);
    settings read with git_config_int (pack.window) use [git_parse_int]. *)
-Definition c48_spec_int64 (hex : String.string) : out :=
-  OOpt ONum (git_parse_signed (unhex hex) 9223372036854775807).
+Definition c48_spec_int64 (hex : list String.string) : out :=
+  OOpt ONum (git_parse_signed (unhexl hex) 9223372036854775807).
